@@ -1,0 +1,35 @@
+//go:build verif
+
+package pod
+
+// Contracts read by the verification engine in /verif (govc). Comment-only file.
+//
+//@ func GetPodConditionFromList
+//@   pure
+//@   ensures result == 0 - 1 <==> result1 == nil
+//@   ensures result1 != nil ==> 0 <= result && result < len(conditions) && result1 == &conditions[result] && conditions[result].Type == conditionType
+//@   ensures result1 == nil ==> forall i int :: 0 <= i && i < len(conditions) ==> conditions[i].Type != conditionType
+//@   ensures first: result1 != nil ==> forall i int :: 0 <= i && i < result ==> conditions[i].Type != conditionType
+//@   loop 1 invariant iter() <= len(conditions)
+//@   loop 1 invariant forall j int :: 0 <= j && j < iter() ==> conditions[j].Type != conditionType
+//@ func GetPodCondition
+//@   transparent
+//@ func GetPodReadyCondition
+//@   transparent
+//@ func IsPodReadyConditionTrue
+//@   transparent
+//@ func IsPodReady
+//@   transparent
+//@   requires pod != nil
+//@ func IsPodAvailable
+//@   transparent
+//@   requires pod != nil
+//@   ensures [C03,C14] available-implies-ready: result ==> IsPodReady(pod)
+//@   ensures [C03] availability-is-readiness: minReadySeconds == 0 ==> (result <==> IsPodReady(pod))
+//@ func IsPodScheduled
+//@   transparent
+//@   requires pod != nil
+//@   ensures result1 <==> pod.Spec.NodeName != ""
+//@ func HasPodSchedulerIssue
+//@   requires pod != nil
+//@   modifies nothing
